@@ -110,4 +110,30 @@ theorem readShapeType_good (t : ShapeType) (rest : Bytes) :
 example : ShapeType.ofCode 26 = none ∧ ShapeType.ofCode (-1) = none ∧ ShapeType.ofCode 25 = some .polygonM := by
   decide
 
+/-- ... and this holds for a RECORD read generically or as any of the concrete types: the code is
+decoded before the requested type is compared, so an invalid code is never reported as a type
+mismatch -/
+theorem readTarget_bad_code (o : Orient) (tg : Target) (recSize : Int) (c : Int) (hr : InI32 c)
+    (h : c ∉ esriCodes) (rest : Bytes) :
+    readTarget o tg recSize (encI32LE c ++ rest) = .err (.shapeType c) := by
+  have hb := readShapeType_bad c hr h rest
+  cases tg with
+  | generic => simp only [readTarget, readShape, Dec.bind, hb]
+  | typed t => simp only [readTarget, readShapeAs, Dec.bind, hb]
+
+/-- the whole record (header, then content starting with the bad code), under any target -/
+theorem readOneShape_bad_code (o : Orient) (tg : Target) (num words : Int) (hn : InI32 num) (hw : InI32 words)
+    (hpos : 0 ≤ words) (hsmall : 2 * words < 2147483648) (c : Int) (hr : InI32 c) (h : c ∉ esriCodes) (rest : Bytes) :
+    readOneShape o tg (encI32BE num ++ encI32BE words ++ encI32LE c ++ rest) = .err (.shapeType c) := by
+  have d1 : ∀ (v : Int) (hv : InI32 v) (r : Bytes), Dec.i32BE (encI32BE v ++ r) = .ok v r := by
+    intro v hv r
+    simp only [Dec.i32BE, Dec.u32BE, encI32BE, encU32BE, List.cons_append, List.nil_append, Res.map, decU32BE]
+    rw [decU32LE_enc _ (ofI32_lt v), toI32_ofI32 hv]
+  unfold readOneShape
+  simp only [Dec.bind, List.append_assoc, d1 num hn, d1 words hw]
+  have : wordsToBytes words = some (2 * words) := by unfold wordsToBytes; rw [if_neg (by omega)]
+  simp only [this]
+  rw [if_neg (by omega)]
+  simp only [Dec.bind, readTarget_bad_code o tg (2 * words) c hr h rest]
+
 end Shp.C19
